@@ -50,7 +50,10 @@ def gen_program(rng: random.Random) -> list[dict]:
         elif kind == 'append':
             tok += 1
             act['mailbox'] = name
-            act['msgs'] = [{'data': make_message(tok), 'flags': ['\\Seen']}]
+            # (some well above the 4096 bytes ordinary strings may have)
+            act['msgs'] = [{'data': make_message(
+                tok, size_pad=rng.choice([0, 0, 0, 5000, 70000])),
+                'flags': ['\\Seen']}]
         elif kind in ('list', 'lsub'):
             act['ref'] = ''
             act['pattern'] = rng.choice(['*', '%', name, name[:2] + '*'])
@@ -110,7 +113,7 @@ def spell(prog: list[dict], rng: random.Random, plain: bool) -> list[dict]:
             if a['kind'] in ('select', 'examine', 'create', 'delete',
                              'status', 'list', 'lsub', 'rename', 'subscribe',
                              'copy', 'store', 'fetch', 'search', 'close',
-                             'login'):
+                             'login', 'append', 'noop', 'check', 'expunge'):
                 a['word'] = case_variant(a['kind'], rng)
             if a['kind'] == 'append':
                 a['literal'] = rng.choice(['lit', 'litplus'])
